@@ -431,12 +431,15 @@ where
         use std::collections::hash_map::Entry;
 
         let r = match self.refs.get(old.id)? {
-            XRef::Free { .. } => panic!(),
+            // a free number is used again with the generation its free entry holds (7.5.4), unless that is the maximum
+            XRef::Free { gen_nr, .. } if gen_nr >= 65535 => bail!("object number {} cannot be used again (generation 65535)", old.id),
+            XRef::Free { gen_nr, .. } => PlainRef { id: old.id, gen: gen_nr },
             XRef::Raw { gen_nr, .. } => PlainRef { id: old.id, gen: gen_nr },
             // a compressed object is replaced by an ordinary object with the same number
             XRef::Stream { .. } => PlainRef { id: old.id, gen: 0 },
             XRef::Promised => PlainRef { id: old.id, gen: 0 },
-            XRef::Invalid => panic!()
+            // a number below /Size that no cross-reference section mentions
+            XRef::Invalid => PlainRef { id: old.id, gen: 0 }
         };
         let primitive = obj.to_primitive(self)?;
         // typed values of this object may be cached from before the update
